@@ -13,6 +13,7 @@ type AnimSeq struct {
 	Kmin    int
 	Kmax    int
 	Loop    int
+	BG      [4]byte // EncodeOptions.BackgroundColor (R,G,B,A): stored in the ANIM chunk; the package documents that playback never paints it
 	Alpha   string // content alpha class
 	Content string
 	Inset   bool // visible pixels in an inner rectangle, fully transparent margins
@@ -51,7 +52,7 @@ func (s *AnimSeq) Summary() map[string]any {
 		edits = append(edits, f.Edit)
 		durs = append(durs, f.DurMS)
 	}
-	return map[string]any{"canvas": [2]int{s.CW, s.CH}, "frames": len(s.Frames), "edits": edits, "durs": durs, "kmin": s.Kmin, "kmax": s.Kmax, "loop": s.Loop, "alpha": s.Alpha, "content": s.Content, "inset": s.Inset}
+	return map[string]any{"canvas": [2]int{s.CW, s.CH}, "frames": len(s.Frames), "edits": edits, "durs": durs, "kmin": s.Kmin, "kmax": s.Kmax, "loop": s.Loop, "alpha": s.Alpha, "content": s.Content, "inset": s.Inset, "bg": s.BG}
 }
 
 // DrawAnimSeq draws a frame sequence. minDur: smallest frame duration generated (C18 needs >= 1).
@@ -271,6 +272,7 @@ func DrawAnimSeq(t *rapid.T, maxCanvas, maxFrames, minDur int, alphas []string) 
 	s.Kmin = rapid.SampledFrom([]int{0, 0, 1, 2, 3, 5, 100}).Draw(t, "kmin")
 	s.Kmax = rapid.SampledFrom([]int{0, 0, 1, 2, 3, 5, 9, 1000}).Draw(t, "kmax")
 	s.Loop = rapid.SampledFrom([]int{0, 0, 1, 7, 65535, 65536, 100000, -1}).Draw(t, "loop")
+	s.BG = rapid.SampledFrom([][4]byte{{}, {}, {255, 255, 255, 255}, {0, 0, 0, 255}, {10, 200, 30, 128}, {255, 0, 255, 1}, {1, 2, 3, 0}}).Draw(t, "bg")
 	return s
 }
 
